@@ -1,18 +1,30 @@
 import Clemens.Model.TT
 import Clemens.Gen.Src
+import Clemens.Proofs.TieTac
 /-
 Tie T1 for the packed age / bound byte of a transposition table entry (`ttentry.go`).
 -/
 namespace Clemens
 open Src
 
+-- only the fallback `tie_tac` (64 bit positions of a rewritten definition) needs more than the default budget; the `rfl` path does not
+set_option maxHeartbeats 1000000
+
 theorem tie_nodeType (e : tt.ttEntry) (m : TTEntry) (h : m.ageNode = e.ageAndNodeType.toNat) :
     (tt.ttEntry_getNodeType e).toNat = m.nodeType := by
   have h3 : (3#8 : BitVec 8).toNat = 3 := rfl
-  simp only [tt.ttEntry_getNodeType, TTEntry.nodeType, BitVec.toNat_and, h3, h]
+  first
+  | tie_rfl
+  | tie_budget 200000 (
+      simp only [tt.ttEntry_getNodeType, TTEntry.nodeType, BitVec.toNat_and, h3, h]; done)
+  | tie_tac
 
 theorem tie_age (e : tt.ttEntry) (m : TTEntry) (h : m.ageNode = e.ageAndNodeType.toNat) :
     (tt.ttEntry_getAge e).toNat = m.age := by
-  simp only [tt.ttEntry_getAge, TTEntry.age, BitVec.toNat_ushiftRight, h]
+  first
+  | tie_rfl
+  | tie_budget 200000 (
+      simp only [tt.ttEntry_getAge, TTEntry.age, BitVec.toNat_ushiftRight, h]; done)
+  | tie_tac
 
 end Clemens
